@@ -1,7 +1,11 @@
 package verifh
 
 import (
+	"bytes"
+	"encoding/json"
 	"fmt"
+	"os"
+	"os/exec"
 	"strings"
 	"testing"
 
@@ -310,4 +314,122 @@ func TestC15_Malformed(t *testing.T) {
 		c.Registered = reg[c.Name]
 		return c
 	})
+}
+
+// Fresh-process call orders: the four ways of looking a name up must agree whatever is called FIRST
+// in a process (tables built on first use must be built by every entry point).
+type c15OrderCase struct {
+	Order string `json:"order"` // permutation of L (ListSuites), K (IsKnownSuite), F (SuiteConfigFromRaws), N (NewRawSuite)
+	Name  string `json:"name"`
+}
+
+type c15ChildOut struct {
+	Listed bool            `json:"listed"`
+	NList  int             `json:"n_list"`
+	Known  bool            `json:"known"`
+	From   otp.SuiteConfig `json:"from"`
+	New    otp.SuiteConfig `json:"new"`
+	NewRaw string          `json:"new_raw"`
+	NewErr string          `json:"new_err"`
+}
+
+// runChild executes "c15:<order>:<name>" in a process where nothing of the library has run yet.
+func runChild(spec string) {
+	parts := strings.SplitN(spec, ":", 3)
+	if len(parts) != 3 || parts[0] != "c15" {
+		fmt.Println("{}")
+		return
+	}
+	name := parts[2]
+	var out c15ChildOut
+	for _, step := range parts[1] {
+		switch step {
+		case 'L':
+			l := otp.ListSuites()
+			out.NList = len(l)
+			for _, x := range l {
+				if x == name {
+					out.Listed = true
+				}
+			}
+		case 'K':
+			out.Known = otp.IsKnownSuite(name)
+		case 'F':
+			out.From = otp.SuiteConfigFromRaws(name)
+		case 'N':
+			su, err := otp.NewRawSuite(name)
+			if err != nil {
+				out.NewErr = err.Error()
+			} else {
+				out.New, out.NewRaw = su.Config(), su.Config().Raw
+			}
+		}
+	}
+	b, _ := json.Marshal(out)
+	fmt.Println(string(b))
+}
+
+func checkC15Order(c c15OrderCase) verdict {
+	cmd := exec.Command(os.Args[0], "-test.run", "^$")
+	cmd.Env = append(os.Environ(), "VERIF_CHILD=c15:"+c.Order+":"+c.Name)
+	raw, err := cmd.Output()
+	var got c15ChildOut
+	if err != nil || json.Unmarshal(bytes.TrimSpace(raw), &got) != nil {
+		fmt.Println("INFRA: child process for C15 call orders failed:", err, string(raw))
+		os.Exit(3)
+	}
+	labels := []string{"first=" + c.Order[:1]}
+	// what this (long initialised) process says
+	wantFrom := otp.SuiteConfigFromRaws(c.Name)
+	su, werr := otp.NewRawSuite(c.Name)
+	reg := otp.IsKnownSuite(c.Name)
+	if got.Known != reg || got.Listed != reg || got.NList != len(otp.ListSuites()) {
+		return bad(true, labels, "fresh process calling %s for %q: IsKnownSuite=%v, listed=%v (%d names); an initialised process says known=%v (%d names)", c.Order, c.Name, got.Known, got.Listed, got.NList, reg, len(otp.ListSuites()))
+	}
+	wantFrom.Raw, got.From.Raw = "", ""
+	if got.From != wantFrom {
+		return bad(true, labels, "fresh process calling %s: SuiteConfigFromRaws(%q) = %+v; an initialised process returns %+v", c.Order, c.Name, got.From, wantFrom)
+	}
+	wantNew, wantRaw := otp.SuiteConfig{}, ""
+	if werr == nil {
+		wantNew = su.Config()
+		wantRaw, wantNew.Raw = wantNew.Raw, "" // Raw does not travel through JSON (json:"-"): compared separately
+	}
+	wantFrom.Raw, got.From.Raw = "", ""
+	if (werr == nil) != (got.NewErr == "") || got.New != wantNew || got.NewRaw != wantRaw {
+		return bad(true, labels, "fresh process calling %s: NewRawSuite(%q) = %+v / %q; an initialised process returns %+v / %v", c.Order, c.Name, got.New, got.NewErr, su, werr)
+	}
+	return ok(true, labels...)
+}
+
+var c15Order = newPart("C15", "first-call-orders",
+	"complete: all 24 orders of the four lookups (ListSuites, IsKnownSuite, SuiteConfigFromRaws, NewRawSuite) x 4 names (shortest and longest registered name, a parsed unregistered name, nonsense), each executed in a FRESH child process of the test binary in which nothing of the library has run before; oracle: the answers equal those of the long-initialised parent process; every case distinct",
+	checkC15Order)
+
+func TestC15_FirstCallOrders(t *testing.T) {
+	defer c15Order.rec().Flush()
+	names := []string{registeredNames[0], "OCRA-1:HOTP-SHA512-8:C-QH10-PSHA512-S-T1", "OCRA-1:HOTP-SHA1-7:QN08-T5M", "nonsense"}
+	for _, n := range registeredNames {
+		if len(n) < len(names[0]) {
+			names[0] = n
+		}
+	}
+	i := 0
+	var perm func(prefix, rest string)
+	perm = func(prefix, rest string) {
+		if rest == "" {
+			for _, n := range names {
+				i++
+				if ev.Mine(i) {
+					c15Order.each(t, c15OrderCase{Order: prefix, Name: n})
+				}
+			}
+			return
+		}
+		for k := range rest {
+			perm(prefix+rest[k:k+1], rest[:k]+rest[k+1:])
+		}
+	}
+	perm("", "LKFN")
+	c15Order.rec().Exhaustive()
 }
